@@ -1361,7 +1361,7 @@ def group_rules(rules):
     return groups
 
 
-def run_lian(files, rules, keep_from_code=False, propagation=None):
+def run_lian(files, rules, keep_from_code=False, propagation=None, read_json=False):
     """Run the full pipeline in-process.  -> dict(flows=set of (src file, src line, sink file, sink line),
     detail=[(src op, sink op, ...)], exc=None|str, nflows=int)."""
     from harness import lianrun, common
@@ -1375,8 +1375,19 @@ def run_lian(files, rules, keep_from_code=False, propagation=None):
             entry=[{"method_list": ["%unit_init"]}],
             source=group_rules(rules["source"]), sink=group_rules(rules["sink"]),
             propagation=propagation if propagation is not None else shipped_propagation(common.REPO))
-        res = lianrun.analyze(files, settings_dir=sd, lang="python", workdir=d, keep_from_code_rules=keep_from_code)
+        res = lianrun.analyze(files, settings_dir=sd, lang="python", workdir=d, keep_from_code_rules=keep_from_code,
+                              quiet=not read_json)
         out = {"flows": set(), "detail": [], "exc": None, "nflows": 0}
+        if read_json:
+            # second observation point: what a non-quiet run writes to taint/taint_data_flow.json
+            out["json_flows"] = None
+            for root, _, names in os.walk(d):
+                if "taint_data_flow.json" in names:
+                    import json as _json
+                    with open(os.path.join(root, "taint_data_flow.json")) as f:
+                        data = _json.load(f)
+                    out["json_flows"] = {(os.path.basename(x["source_file_path"]), int(x["source_line"]),
+                                          os.path.basename(x["sink_file_path"]), int(x["sink_line"])) for x in data}
         if res.exc is not None:
             import traceback
             tb = traceback.extract_tb(res.exc.__traceback__)
@@ -1916,12 +1927,15 @@ def justify(facts, graph, rules, flow):
 
 
 def _relax(facts, rules, site, matcher):
-    """Smallest set of rule fields that has to be ignored for some rule to match the statement."""
+    """Smallest set of rule fields that has to be ignored for some rule to match the statement; the name of the rule
+    is given up last (a rule with another name is another rule)."""
     import itertools
-    fields = ["line_num", "unit_name", "lang", "operation", "name"]
-    for n in (1, 2, 3):
-        for combo in itertools.combinations(fields, n):
-            for r in rules:
-                if matcher(facts, r, site, ignore=combo) is not None:
-                    return "+".join(combo)
+    fields = ["line_num", "unit_name", "lang", "operation"]
+    for with_name in (False, True):
+        for n in range(0 if with_name else 1, len(fields) + 1):
+            for combo in itertools.combinations(fields, n):
+                ign = combo + (("name",) if with_name else ())
+                for r in rules:
+                    if matcher(facts, r, site, ignore=ign) is not None:
+                        return "+".join(ign)
     return "nothing-close"
